@@ -32,6 +32,11 @@ func slowGid() uint64 {
 	return id
 }
 
+//go:nocheckptr
+func readWord(g unsafe.Pointer, off uintptr) uint64 {
+	return *(*uint64)(unsafe.Pointer(uintptr(g) + off))
+}
+
 func init() {
 	if runtime.GOARCH != "amd64" {
 		return
@@ -45,7 +50,7 @@ func init() {
 			g := getg()
 			m := map[uintptr]bool{}
 			for off := uintptr(0); off < 640; off += 8 {
-				if *(*uint64)(unsafe.Add(g, off)) == id {
+				if readWord(g, off) == id {
 					m[off] = true
 				}
 			}
@@ -70,9 +75,10 @@ func init() {
 	}
 }
 
+//go:nocheckptr
 func gid() uint64 {
 	if fastGid {
-		return *(*uint64)(unsafe.Add(getg(), goidOff))
+		return readWord(getg(), goidOff)
 	}
 	return slowGid()
 }
